@@ -85,7 +85,8 @@ LOOP_INV = ("0 <= total && total <= (1LL << 28) && 0 <= len && len <= (1LL << 28
             "&& g_io_short == __CPROVER_loop_entry (g_io_short) && psf->error == __CPROVER_loop_entry (psf->error)")
 # host_read_d / host_write_d style: one big transfer, then an endswap pass in SENSIBLE_LEN pieces
 SENSIBLE_INV = ("0 <= total && total <= (1LL << 28) && 0 <= len && len <= (1LL << 28) && total + len == __CPROVER_loop_entry (len) "
-                "&& total + len == g_io_total && 0 < bufferlen && bufferlen <= 0x8000000")
+                "&& total + len == g_io_total && 0 < bufferlen && bufferlen <= 0x8000000 "
+                "&& g_io_short == __CPROVER_loop_entry (g_io_short) && psf->error == __CPROVER_loop_entry (psf->error) && g_io_total == __CPROVER_loop_entry (g_io_total)")
 # writers that run the peak update per staging chunk: chunks are whole frames and everything written so far was covered
 ALIGN_INV = " && total % CH == 0 && len % CH == 0 && bufferlen % CH == 0 && g_peak_items == (psf->peak_info != (void *) 0 ? total : 0)"
 TYPES = {"short": 2, "int": 4, "float": 4, "double": 8}
@@ -120,14 +121,14 @@ def units():
                     repl.append(k)
             if peakfn in body:
                 repl.append(peakfn)
-            for ch in (2, 3):
+            for ch in (2, 3, 5, 1024):
                 h = HEAD % dict(file=fname, ch=ch, peakfn=peakfn, ET=ET, ESZ=ESZ) + "\n".join(decls) + IMPL % dict(
                     fn=fn, cq=cq, T=T, SZ=TYPES[T], ptr_target=(", __CPROVER_object_whole (ptr)" if kind == "read" else ""),
                     peak_clause=("__CPROVER_ensures (psf->peak_info != NULL ==> g_peak_items >= __CPROVER_return_value) /*@C18.every_item_written_went_through_the_peak_update*/\n" if kind == "write" else ""))
                 in_loop = bool(re.search(r"_peak_update \(psf, ubuf", body))
                 u = {"name": "%s.%s.ch%d" % (fname[:-2], fn, ch), "props": ["C05", "C15"] + (["C18", "C07"] if kind == "write" else ["C06"]),
                      "harness_text": h, "template": "units/gen_float.py", "entry": "h_unit", "enforce": fn, "function": "%s:%s" % (fname, fn),
-                     "replace": repl, "timeout": 600, "tier": "quick" if ch == 2 else "thorough", "kind": "enumerated(channels=%d)" % ch,
+                     "replace": repl, "timeout": 600, "tier": "quick" if ch in (2, 3) else "thorough", "kind": "enumerated(channels=%d)" % ch,
                      "trusted": ["psf_fread/psf_fwrite contracts (enforced in the file_io units)", "E1 memcpy model"]}
                 if "while (len > 0)" in body:
                     u["loops"] = {fn: [{"loop_id": 0, "assigns_locals": True, "optional": True,
